@@ -255,6 +255,9 @@ def depends(rep, repo):
     # the op list is built from Circuit.topological_order(): its traversal rules (C17) are part of this check
     from checks import c17
     c17.order_rules(rep, repo)
+    # both simulators execute the op list SimOps builds: the node -> op translation rule of C01 is part of this check
+    from checks import c01
+    c01.wiring_rules(rep, repo)
 
 
 def thorough(rep, repo):
